@@ -81,6 +81,18 @@ def cap_class():
     return _CAP['c']
 
 
+def disturb(Q, T):
+    """a simulation whose only role is to disturb shared state before the run that is compared: it runs on ANOTHER random stream, so it may
+    end in one of the engine's known crashes (e.g. F-02a) although the compared run does not; whatever it has done by then stays done"""
+    try:
+        Q.simulate_until_max_time(T)
+    except Zeno:
+        raise
+    except Exception:
+        return False
+    return True
+
+
 def simulate(cfg, N, T=None, tracker=True):
     import ciw
     kw = {}
@@ -213,7 +225,7 @@ class C15(Prop):
             ciw.seed(rng.randrange(1 << 20))
             for _ in range(rng.choice([1, 2])):
                 Q0 = simulate(cfg, build(cfg))
-                Q0.simulate_until_max_time(rng.choice([3.0, 11.0]))
+                disturb(Q0, rng.choice([3.0, 11.0]))
             ciw.seed(cfg['seed'])
             N = build(cfg)
             Q = simulate(cfg, N)
@@ -227,7 +239,7 @@ class C15(Prop):
             tests.append([2, outcome(Q2)])
             ciw.seed(rng.randrange(1 << 20))
             Qp = simulate(cfg, N)
-            Qp.simulate_until_max_time(7.0)
+            disturb(Qp, 7.0)
             ciw.seed(cfg['seed'])
             Q3 = simulate(cfg, N)
             shared += n_shared(members_of_sim(Qp), members_of_sim(Q3))
@@ -241,7 +253,7 @@ class C15(Prop):
             npst = ciw.rng.bit_generator.state
             Qb = simulate(cfg, N4)
             shared += n_shared(members_of_sim(Qa), members_of_sim(Qb))
-            Qb.simulate_until_max_time(cfg['T15'])
+            disturb(Qb, cfg['T15'])
             random.setstate(st)
             ciw.rng.bit_generator.state = npst
             Qa.simulate_until_max_time(cfg['T15'])
